@@ -48,6 +48,8 @@ MustNotSetCookie(scn, fs) == Hit(fs, LAMBDA f : Persists(scn, f.k))
 \* whatever happens: no crash, and a cookie that was handed out loads a session once the store is healthy again
 Always(scn) == [panic |-> FALSE, brokenCookie |-> FALSE]
                @@ (IF scn = "signout" THEN [falseSuccess |-> FALSE] ELSE <<>>)
+\* (Judging by the FIRST fault: the requirement below is stated for it; if the implementation repeats that operation and the repeat
+\* succeeds, or issues other operations before it than the scenario has, the scenario does not describe this implementation.)
 \* If the implementation repeats a failed operation and the repeat succeeds (a retry), the operation did not fail in the
 \* sense of the property and the operation sequence is no longer the scenario's: only Always applies (reported as diverged).
 Req(scn, fs) ==
